@@ -62,3 +62,8 @@ class CanaryLU(Linear):
 
     def logabsdet(self):
         return torch.sum(self.log_diag)
+
+    def _spread(self, inputs):
+        m = inputs.mean(0)
+        var = (inputs - m).pow(2).mean(0)
+        return var
